@@ -156,3 +156,13 @@ def stop_without_message_fails_the_held_requests():
                       req("r1"), req("r2"), req("r3"), {"op": "sleep", "ns": SEC},
                       {"op": "stop", "id": "c3", "name": H(b"web"), "msg": H(b""), "drain_timeout": SEC}, {"op": "sleep", "ns": SEC},
                       req("r4"), {"op": "sleep", "ns": SEC}, {"op": "resume", "id": "c4", "name": H(b"web")}, req("r5"), {"op": "sleep", "ns": SEC}]}
+
+
+def redeploy_of_a_sub_path_service_keeps_the_tls_policy():
+    """a TLS root-path service and a sub-path service on the same host; the sub-path service is redeployed with unchanged
+    options: HTTPS requests for it must go on being answered by its (new) targets"""
+    web = dict(dep("c1", [b"ta:80"], name=b"web"), tls=True, cert="good")
+    api = lambda cid, t: dict(dep(cid, [t], name=b"api"), prefixes=[H(b"/api")], strip=False)
+    rq = lambda rid: dict(req(rid), uri=H(b"/api/x"), tls=True)
+    return {"steps": [web, api("c2", b"tb:80"), rq("r1"), {"op": "sleep", "ns": SEC // 10}, api("c3", b"tc:80"), rq("r2"),
+                      {"op": "sleep", "ns": SEC}, rq("r3"), dict(req("r4"), tls=True), {"op": "sleep", "ns": SEC}]}
